@@ -59,6 +59,17 @@ def snapshot (v : View) : String :=
   " pools=" ++ join ((sortBy (fun e : Nat × RHost => [e.1]) v.pools).map (fun e => toString e.1 ++ "=" ++ showHost v e.2)) ++
   " ta=" ++ showSet v v.pol.ta ++ " loc=" ++ showSet v v.pol.loc ++ " rem=" ++ showSet v v.pol.rem
 
+/-- the E2E tier's snapshot: as `snapshot` without the ordered host list (Session.init fills the ring in Go map order) -/
+def snapshotE (v : View) : String :=
+  "ring=" ++ join ((sortBy (fun e : Nat × RHost => [e.1]) v.ring.byId).map (fun e => toString e.1 ++ "=" ++ showHost v e.2)) ++
+  " ips=" ++ join ((sortBy (fun e : Nat × Nat => [e.1]) v.ring.byIp).map (fun e => toString e.1 ++ ":" ++ toString e.2)) ++
+  " pools=" ++ join ((sortBy (fun e : Nat × RHost => [e.1]) v.pools).map (fun e => toString e.1 ++ "=" ++ showHost v e.2)) ++
+  " ta=" ++ showSet v v.pol.ta ++ " loc=" ++ showSet v v.pol.loc ++ " rem=" ++ showSet v v.pol.rem
+
+/-- every pool of a reachable node connects: `handleNodeConnected` for every pool -/
+def connectAll (env : Env) (v : View) : View :=
+  (sortBy (fun e : Nat × RHost => [e.1]) v.pools).foldl (fun v e => v.connected env e.1) v
+
 /-- answer of an op that moved the view from `s.v` to `v'` -/
 def answer (s : St) (v' : View) (pre : String) : St × String :=
   if v'.crashed then ({ s with v := { v' with crashed := false } }, "crash:nil-host")
@@ -119,6 +130,18 @@ def oracleStr (pfx : String) (l : List Nat) : String :=
 
 def resStr : RefreshResult → String
   | .ok => "ok" | .errCannotFind => "err:cannot-find-host" | .errAlreadyExists => "err:host-already-exists"
+
+/-- `evrefresh`: refreshRing with these system.local / system.peers contents -/
+def refreshOp (s : St) (rows : String) : St × String :=
+  match parseRows rows with
+  | [] => (s, "bad-op")
+  | loc :: peers =>
+    let s1 := regRows { s with prevIds := s.v.ring.ids, specRep := getHostsSpec loc peers s.nextObj } (loc :: peers)
+    match getHosts loc peers s.nextObj with
+    | none => (s1, "crash:no-address")
+    | some hs =>
+      let (v', res) := s1.v.refresh s1.env hs
+      answer s1 v' (resStr res ++ " ")
 
 /-- ops (every answer ends with the canonical snapshot and `rr=` = a ring refresh was requested by the op)
   reset ev <rr|dc|tarr|tadc> <flags>            fresh dial-free session; flags ⊆ {T,S} (topology / status events disabled) or -
@@ -195,19 +218,71 @@ def step (s : St) (ws : List String) : St × String :=
           let env2 := s2.env
           let v := hs.foldl (fun v h => if env2.filter h then v else v.addInitial env2 h) { View.empty with ring := r }
           answer { s2 with v := { v with refreshReq := 0 } } v "ok "
-  | [op, rows] =>
-    if op == "evrefresh" || op == "evrefreshx" then
-      match parseRows rows with
-      | [] => (s, "bad-op")
-      | loc :: peers =>
-        let s1 := regRows { s with prevIds := s.v.ring.ids, specRep := getHostsSpec loc peers s.nextObj } (loc :: peers)
-        match getHosts loc peers s.nextObj with
-        | none => (s1, "crash:no-address")
-        | some hs =>
-          let (v', res) := s1.v.refresh s1.env hs
-          answer s1 v' (resStr res ++ " ")
-    else (s, "bad-op")
+  | ["evrefresh", rows] => refreshOp s rows
+  | ["evrefreshx", rows] => refreshOp s rows
   | ["evrefreshfail"] => answer s s.v "err:gethosts "
+  /- E2E tier: a real Session with control connection on a scripted in-memory cluster; answers are the quiesced state -/
+  | ["reset", "e2e", pol, flags, ctl, rows] =>
+    let s0 := setFlags {} pol flags
+    match parseRows rows with
+    | [] => (s0, "bad-op")
+    | loc :: peers =>
+      let s1 := regRows { s0 with ctl := nat ctl } [loc]
+      match loc.host s0.nextObj (nat ctl) with
+      | none => (s1, "err:setup")
+      | some l0 =>
+        let (r, e) := View.empty.ring.addOrUpdate l0
+        if s1.env.filter e then (s1, "err:setup") else
+        let s2 := regRows s1 (loc :: peers)
+        match getHosts loc peers s1.nextObj with
+        | none => (s2, "err:setup")
+        | some hs =>
+          let env2 := s2.env
+          let v := hs.foldl (fun v h => if env2.filter h then v else v.addInitial env2 h) { View.empty with ring := r }
+          let v := connectAll env2 v
+          ({ s2 with v := { v with refreshReq := 0 } }, "ok " ++ snapshotE v)
+  | ["e2eevents", b, rows] =>
+    -- a burst of EVENT frames within one debounce window, while the system tables hold `rows`
+    let evs := parseBatch b
+    let s0 := trackBatch s evs
+    let v1 := connectAll env (s.v.handleBatch env evs)
+    if v1.crashed then ({ s0 with v := { v1 with crashed := false } }, "crash:nil-host") else
+    if v1.refreshReq == s.v.refreshReq then ({ s0 with v := v1 }, "refreshed=0 " ++ snapshotE v1) else
+    (match parseRows rows with
+    | [] => ({ s0 with v := v1 }, "bad-op")
+    | loc :: peers =>
+      let s1 := regRows { s0 with v := v1, prevIds := v1.ring.ids, specRep := getHostsSpec loc peers s0.nextObj } (loc :: peers)
+      match getHosts loc peers s0.nextObj with
+      | none => (s1, "crash:no-address")
+      | some hs =>
+        let (v2, _) := s1.v.refresh s1.env hs
+        let v3 := connectAll s1.env v2
+        ({ s1 with v := v3 }, "refreshed=1 " ++ snapshotE v3))
+  | ["e2efail", b] =>
+    -- the same while the system.peers query fails: the refresh (if any) changes nothing
+    let evs := parseBatch b
+    let s0 := trackBatch s evs
+    let v1 := connectAll env (s.v.handleBatch env evs)
+    ({ s0 with v := v1 }, "refreshed=" ++ (if v1.refreshReq == s.v.refreshReq then "0" else "1") ++ " " ++ snapshotE v1)
+  | ["e2edrop", rows] =>
+    -- the control connection is reset: reconnect to the same node (setupConn: ring.addOrUpdate + startPoolFill), then refreshRing
+    match parseRows rows with
+    | [] => (s, "bad-op")
+    | loc :: peers =>
+      let s1 := regRows s [loc]
+      match loc.host s.nextObj s.ctl with
+      | none => (s1, "crash:no-address")
+      | some l0 =>
+        let (s2, v1, e) := addOrUpdateU s1 l0
+        let v2 := if s2.env.filter e then v1 else v1.startPoolFill s2.env e
+        let s3 := regRows { s2 with v := v2, prevIds := v2.ring.ids, specRep := getHostsSpec loc peers s2.nextObj } (loc :: peers)
+        match getHosts loc peers s2.nextObj with
+        | none => (s3, "crash:no-address")
+        | some hs =>
+          let (v3, _) := s3.v.refresh s3.env hs
+          let v4 := connectAll s3.env v3
+          ({ s3 with v := v4 }, "refreshed=1 " ++ snapshotE v4)
+  | ["e2ebound"] => (s, "ok")
   | ["evdeb", n, b] =>
     let evs := parseBatch b
     match evs with
